@@ -24,6 +24,15 @@ class ToolError(Exception):
     pass
 
 
+class LibraryAbort(ToolError):
+    """the harness process died from a panic raised inside the code under test (source file of /repo), outside any step the harness
+    guards: a panic of the code under test is data, not a tool error (bin/check reports it as a violation of the running check)"""
+
+    def __init__(self, where, msg, args, stderr):
+        ToolError.__init__(self, "panic inside the code under test at %s: %s" % (where, msg))
+        self.where, self.msg, self.args_, self.stderr = where, msg, args, stderr
+
+
 def log(*a):
     print(*a, flush=True)
 
@@ -140,7 +149,13 @@ def run_harness(exe, args, stdin_path=None, stdout_path=None, timeout=3600, env=
         if stdout_path:
             fout.close()
     out = None if stdout_path else p.stdout.decode("utf-8", "replace")
-    return p.returncode, out, p.stderr.decode("utf-8", "replace")[-4000:]
+    err = p.stderr.decode("utf-8", "replace")
+    if p.returncode != 0:
+        import re as _re
+        m = _re.search(r"panicked at (%s/[^\s:]+):\d+:\d+:\n([^\n]*)" % _re.escape(ALT_REPO), err)
+        if m:
+            raise LibraryAbort(m.group(1)[len(ALT_REPO) + 1:], m.group(2).strip()[:200], args, err[-3000:])
+    return p.returncode, out, err[-4000:]
 
 
 # ---------------------------------------------------------------------------------------------
